@@ -136,27 +136,53 @@ impl DepsGraph {
         TopologicalSort(sort_data.list)
     }
 
-    fn visit(&self, sort_data: &mut TopologicalSortData, key: BorrowedDependency) {
+    /// Post-order traversal of the reverse dependencies of `key`.
+    ///
+    /// This uses an explicit stack: the depth of a chain of dependent assets
+    /// is not bounded, and must not be limited by the stack of the
+    /// hot-reloading thread.
+    fn visit<'a>(&'a self, sort_data: &mut TopologicalSortData, key: BorrowedDependency<'a>) {
+        let mut stack = Vec::new();
+        stack.extend(self.enter(sort_data, key));
+
+        loop {
+            let next = match stack.last_mut() {
+                Some((_, rdeps)) => rdeps.next(),
+                None => break,
+            };
+
+            match next {
+                Some(rdep) => stack.extend(self.enter(sort_data, rdep.as_borrowed())),
+                None => {
+                    if let Some((BorrowedDependency::Asset(key), _)) = stack.pop() {
+                        sort_data.list.push(key.clone());
+                    }
+                }
+            }
+        }
+    }
+
+    /// Marks a node as visited and returns what is needed to visit its reverse
+    /// dependencies, if it was not visited yet.
+    fn enter<'a>(
+        &'a self,
+        sort_data: &mut TopologicalSortData,
+        key: BorrowedDependency<'a>,
+    ) -> Option<(
+        BorrowedDependency<'a>,
+        impl Iterator<Item = &'a Dependency>,
+    )> {
         if sort_data.visited.contains(&key as &dyn Key) {
-            return;
+            return None;
         }
 
-        let node = match self.0.get(&key as &dyn Key) {
-            Some(deps) => deps,
-            None => return,
-        };
+        let node = self.0.get(&key as &dyn Key)?;
 
         // Mark the node before visiting its reverse dependencies, so that the
         // traversal terminates when assets (directly or not) look each other up
         sort_data.visited.insert(key.into_owned());
 
-        for rdep in node.rdeps.iter() {
-            self.visit(sort_data, rdep.as_borrowed());
-        }
-
-        if let BorrowedDependency::Asset(key) = key {
-            sort_data.list.push(key.clone());
-        }
+        Some((key, node.rdeps.iter()))
     }
 
     pub fn reload(&mut self, cache: crate::AnyCache, key: OwnedKey) {
